@@ -11,6 +11,10 @@ search():     the property itself on the real code against the independent refer
               (fractions + datetime): first point, spacing, monotonicity, last point, grid length, agreement of the
               year / date / elapsed representations, result lengths, and the placement of module timelines on the
               sim's elapsed-time axis.  The stored witnesses of the known findings are replayed first.
+zoo:          every entry of harness/zoo.py (whole runs of unusual-but-valid configurations) goes through both: the timeline
+              of the sim and of every module (also nested ones) is observed after sim.init() and after sim.run(), compared
+              with the Lean model (correspond_zoo) and judged by the reference (search_zoo); probes ride along on their own
+              dt / start / stop (zoo_probes).
 """
 import datetime as dtm, math
 from fractions import Fraction as F
@@ -1091,7 +1095,7 @@ def probe_fails(sim, p, who):
 # EVERY module (also nested ones: the product of an intervention, the pools of MixingPools) is observed after sim.init()
 # and again after sim.run()
 
-PROBE_NAMES = ('c07probe', 'c07probe2', 'c07probe3', 'c07probe4', 'c07probe5')
+PROBE_NAMES = ('c07probe', 'c07probe2', 'c07probe3', 'c07probe4', 'c07probe5', 'c07probe6')
 
 
 def zoo_probes(cfg):
@@ -1103,7 +1107,8 @@ def zoo_probes(cfg):
     start, unit = cfg.get('start'), cfg.get('unit', 'year')
     if not isinstance(start, str) and unit in ('year', 'unitless'):
         out.append(make_probe(name=PROBE_NAMES[2], dt=float(F(3, 2) * dt)))
-    # a probe that starts two sim steps late, and one for which ONLY the stop is given (two sim steps early)
+    # a probe that starts two sim steps late, one for which ONLY the stop is given (two sim steps early), and one in ANOTHER
+    # unit that starts two sim steps late
     if cfg.get('dur') is not None and F(repr(float(cfg['dur']))) >= 5 * dt:
         dur = F(repr(float(cfg['dur'])))
         if isinstance(start, str) and unit in ('day', 'week') and (2 * dt * ref.UNIT_DAYS[unit]).denominator == 1:
@@ -1111,10 +1116,13 @@ def zoo_probes(cfg):
             day = lambda k: iso(d0 + dtm.timedelta(days=int(k * ref.UNIT_DAYS[unit])))
             out.append(make_probe(name=PROBE_NAMES[3], start=day(2 * dt)))
             if (dur * ref.UNIT_DAYS[unit]).denominator == 1: out.append(make_probe(name=PROBE_NAMES[4], stop=day(dur - 2 * dt)))
+            out.append(make_probe(name=PROBE_NAMES[5], start=day(2 * dt), unit='week' if unit == 'day' else 'day', dt=1.0 if unit == 'day' else 3.0))
         elif start is not None and not isinstance(start, str):
             s0 = F(repr(float(start)))
             out.append(make_probe(name=PROBE_NAMES[3], start=float(s0 + 2 * dt)))
             out.append(make_probe(name=PROBE_NAMES[4], stop=float(s0 + dur - 2 * dt)))
+            if unit == 'year' and (s0 + 2 * dt).denominator == 1:    # (a NUMBER as the start of a week-unit module in a year sim is refused: its stop is the sim's last DATE)
+                out.append(make_probe(name=PROBE_NAMES[5], start=f'{int(s0 + 2 * dt):04d}-01-01', unit='week', dt=4.0))
     return out
 
 
@@ -1199,7 +1207,7 @@ def run_zoo(name, cfg):
     try:
         with_timeout(3 * TIME_LIMIT, sim.run)
         out['run'] = snapshot(sim, pre)
-        out['probe_fails'] = [f for pn, lbl in zip(PROBE_NAMES, ('', 'dt=2*sim.dt', 'dt=1.5*sim.dt', 'start=2 steps late', 'stop=2 steps early')) if pn in sim.analyzers
+        out['probe_fails'] = [f for pn, lbl in zip(PROBE_NAMES, ('', 'dt=2*sim.dt', 'dt=1.5*sim.dt', 'start=2 steps late', 'stop=2 steps early', 'other unit, start=2 steps late')) if pn in sim.analyzers
                               for f in probe_fails(sim, sim.analyzers[pn], f'probe({lbl}) in sim{fmt_spec(out["spec"])}')]
     except (Exception, Hang) as e:
         out.update(run_err=err_kind(e), run_exc=f'{type(e).__name__}: {str(e)[:200]}')
